@@ -475,7 +475,13 @@ func (ps *PipeSim) targetReset(c *simrt.Chooser) {
 		n := ps.srv.PendingCount(ss)
 		k := 0
 		if n > 0 {
-			k = c.Choose("reset_exec_more", n+1)
+			// half of the time everything already written is still executed and only the replies are lost: the case in
+			// which the tool knows least about what the target did
+			if c.Choose("reset_exec_all", 2) == 1 {
+				k = n
+			} else {
+				k = c.Choose("reset_exec_more", n+1)
+			}
 		}
 		done := ps.srv.KillSession(ss, k)
 		in.wasReset = true // (only if a connection was there to drop)
